@@ -32,10 +32,17 @@ pub enum Class {
     BadWorkers,
     UnknownFlag,
     BadGlob,
+    /// destination designates the source itself: through a symlink, a hard link, or another spelling
+    SameViaSymlink,
+    SameViaHardlink,
+    SameViaSpelling,
+    /// several sources selected by ONE --glob pattern, destination not a directory
+    MultiViaGlobToNonDir,
 }
 const CLASSES: &[Class] = &[
     Class::NoArgs, Class::SinglePath, Class::MissingSource, Class::DirWithoutRecursive, Class::MultiToNonDir, Class::DirOntoFile, Class::SameAsDest, Class::SameAsDestBasename,
     Class::ForceNoClobber, Class::BadDriver, Class::BadReflink, Class::BadBackup, Class::BadBlockSize, Class::BadWorkers, Class::UnknownFlag, Class::BadGlob,
+    Class::SameViaSymlink, Class::SameViaHardlink, Class::SameViaSpelling, Class::MultiViaGlobToNonDir,
 ];
 
 #[derive(Clone, Debug, Serialize, Deserialize)]
@@ -53,7 +60,7 @@ pub struct Case {
 }
 
 pub fn strategy() -> BoxedStrategy<Case> {
-    (0..CLASSES.len(), 0u8..4, 0u8..4, 0u8..4, any::<bool>(), 0u8..32, 0u8..8)
+    (0..CLASSES.len(), 0u8..4, 0u8..4, 0u8..4, any::<bool>(), 0u8..64, 0u8..8)
         .prop_map(|(c, pos, nvalid, dest_state, parblock, harmless, variant)| Case { class: CLASSES[c], pos, nvalid, dest_state, parblock, harmless, variant })
         .boxed()
 }
@@ -70,7 +77,7 @@ pub fn build(c: &Case) -> (Vec<Ent>, Vec<Vec<u8>>, u8) {
     // destination state, adjusted to what the class needs
     let mut ds = c.dest_state % 4;
     match c.class {
-        Class::MultiToNonDir => ds %= 2,          // absent or file
+        Class::MultiToNonDir | Class::MultiViaGlobToNonDir => ds %= 2, // absent or file
         Class::DirOntoFile => ds = 1,             // existing file
         Class::DirWithoutRecursive => ds = 2 + ds % 2, // a directory, so that only the missing -r is wrong
         Class::MissingSource if c.nvalid >= 1 => ds = 2 + ds % 2,
@@ -103,6 +110,9 @@ pub fn build(c: &Case) -> (Vec<Ent>, Vec<Vec<u8>>, u8) {
     }
     if c.harmless & 16 != 0 {
         flags.push(s("-v"));
+    }
+    if c.harmless & 32 != 0 {
+        flags.push(s("--backup=numbered"));
     }
     let nvalid = (c.nvalid % 4) as usize;
     let mut valid: Vec<Vec<u8>> = (0..std::cmp::min(nvalid, 3)).map(|i| format!("v{}", i).into_bytes()).collect();
@@ -182,6 +192,30 @@ pub fn build(c: &Case) -> (Vec<Ent>, Vec<Vec<u8>>, u8) {
             }
             paths = valid;
             paths.push(s("d"));
+        }
+        Class::SameViaSymlink => {
+            ents.push(Ent::link(b"alias", if c.variant & 2 != 0 { b"./v0" } else { b"v0" }));
+            paths = vec![s("v0"), s("alias")];
+        }
+        Class::SameViaHardlink => {
+            ents.push(Ent::new(b"hard", Kind::Hard(b"v0".to_vec())));
+            paths = vec![s("v0"), s("hard")];
+        }
+        Class::SameViaSpelling => {
+            paths = match c.variant % 4 {
+                0 => vec![s("v0"), s("./v0")],
+                1 => vec![s("v0"), s("by/../v0")],
+                2 => vec![s("sub/f"), s("./sub")],
+                _ => vec![s("v0"), s(".")],
+            };
+        }
+        Class::MultiViaGlobToNonDir => {
+            flags.push(s("--glob"));
+            paths = vec![s(["v*", "v?", "v[012]", "*0"][c.variant as usize % 4]), s("d")];
+            if c.variant % 4 == 3 {
+                // "*0" matches v0 only unless another name ends in 0: add one
+                ents.push(Ent::file(b"w0", Content::data(3, 9)));
+            }
         }
         Class::BadGlob => {
             flags.push(s("--glob"));
